@@ -331,6 +331,10 @@ pub fn gen_scenario(run_seed: u64, variant: &str, tier: Tier) -> E2Scenario {
         no_config_ok: variant != "c14",
         // (the c08 classifier reasons with project-unique fragment names)
         fragment_name_collisions: variant != "c08",
+        symlinks_pct: match variant {
+            "c18" | "c18f" | "arte" | "c13" | "c17" => 10,
+            _ => 0,
+        },
     };
     let project = project::gen_project(&mut rp, &opts);
     let mut tree: BTreeMap<String, String> = project.files().into_iter().collect();
@@ -804,7 +808,7 @@ impl<'a> Runner<'a> {
         self.digest = d;
         RUN_DIGEST.with(|x| x.set(d));
         if std::env::var("NVSIM_DEBUG_RUNS").is_ok() {
-            eprintln!("run {} {:?} {format} exit={} stdout={:x} stderr={:x} trace={} tree={}", self.runs, commands, r.exit, rng::fnv(&scrub(&r.stdout)), rng::fnv(&scrub(&r.stderr)), r.trace.len(), after.len());
+            eprintln!("run {} {:?} {format} exit={} stdout={:x} stderr={:x} trace={} tree={} args={:?} out={}", self.runs, commands, r.exit, rng::fnv(&scrub(&r.stdout)), rng::fnv(&scrub(&r.stderr)), r.trace.len(), after.len(), self.args(commands, format), tail(&r.stdout_str()));
         }
         (r, after)
     }
@@ -1891,6 +1895,8 @@ pub fn execute(sc: &E2Scenario) -> RunReport {
         rep.violate(&[], "harness:no-namespace", "private mount namespace unavailable".into());
         return rep;
     }
+    indep::set_links(&sc.project.links);
+    sandbox::set_links(&sc.project.links);
     match sc.variant.as_str() {
         "c18" => drive_c18(sc, &mut rep),
         "arte" => drive_arte(sc, &mut rep),
@@ -1902,6 +1908,8 @@ pub fn execute(sc: &E2Scenario) -> RunReport {
         _ => {}
     }
     sandbox::clear_tree();
+    indep::set_links(&[]);
+    sandbox::set_links(&[]);
     // reach probes for the layout / input-kind dimensions of the workload
     {
         let p = &sc.project;
@@ -1921,6 +1929,12 @@ pub fn execute(sc: &E2Scenario) -> RunReport {
         }
         if p.cwd != p.root {
             rep.probe("layout:cwd_differs_from_config_dir");
+        }
+        if !p.links.is_empty() {
+            rep.probe("layout:reached_through_symlink");
+            if p.config_text().contains("../") && p.root == p.links[0].0 {
+                rep.probe("layout:dotdot_leaves_the_symlink");
+            }
         }
     }
     // signature = behaviour class of the run, not its identity: shape of the project and of its
